@@ -186,10 +186,12 @@ class CQN(RLAlgorithm):
             if action_mask is None:
                 action = np.random.randint(0, self.action_dim, size=len(obs))
             else:
+                # Illegal actions get -1 so that they lose even against a draw of exactly 0
                 action = np.argmax(
-                    (
-                        np.random.uniform(0, 1, (len(obs), self.action_dim))
-                        * action_mask
+                    np.where(
+                        np.asarray(action_mask) != 0,
+                        np.random.uniform(0, 1, (len(obs), self.action_dim)),
+                        -1.0,
                     ),
                     axis=1,
                 )
